@@ -49,7 +49,7 @@ type c03Case struct {
 func init() {
 	engine.Register(&engine.Check{
 		ID: "C03", Level: "fault_enumeration",
-		Rule: "corpus = universe U in XY/XYZ/XYM/XYZM + collections (mixed layouts, empty members, nesting) + 14 large geometries whose coordinate arrays straddle 512/1024 floats and 4/8/64 KiB x {NDR,XDR} x {WKB default, WKB NaN mode, EWKB} x top-level SRID in {0,1,4326,2^31-1,2^31,2^32-1} + special-float sweep; bytes compared with an independent reference encoder, decode compared with the model (carve-outs computed); hex and SQL wrappers; Read over a fault-injecting reader on enc(g1)||enc(g2): all answer sequences with <=1 (quick) / <=2 (thorough) non-default answers from {all, 1 byte, all-but-one, data+EOF}, and ALL chunk compositions for encodings <= 22 bytes; Write over a fault-injecting writer: every Write call index x {fail, short write}. distinct_nontrivial = distinct (case) tuples with at least one coordinate Also: a point nested 10..1000 (thorough 5000) collections deep; every NaN pattern of a point (each ordinate from canonical/payload/negative NaN and an ordinary value) stand-alone, as multipoint member and inside nested collections; every query / in-place change / query history of length <=3 (thorough 4) on live geometries and collections (incl. a point pushed into a nested, possibly still empty, collection after the outer one was encoded): the bytes must be the reference encoding of the geometry as it is now; two-step histories in which the bytes returned by Marshal and by the SQL Value() methods are kept while shorter and longer geometries are encoded, then compared again. Round 7: the reader exploration also with the case geometry LAST in the stream, and data delivered together with io.EOF after the fully enumerated first geometry. Round 8: the reader schedules again behind a reader with a failing Seek method and behind bufio.Readers of 16 and 4096 bytes. Round 9: the writer exploration again with one-off faults (later Write calls succeed); one SQL wrapper scanned into twice (the rows loop). Round 10: every value of the last byte of an encoding (256 values in the lowest mantissa byte and in the sign/exponent byte of the last ordinate) through Unmarshal, hex and every SQL wrapper; polygons with 65536, 65537, 70001 rings and multi-geometries / collections with 65537 members. Round 11: after every failed write the geometry is encoded again and compared with its encoding before the write (a fresh geometry per execution). Round 12: nothing is refused under the package's default settings - a multi-line with 2^20+1 members round-tripped, and count prefixes of 2^16+1..2^28+1 members for every multi-part type may run out of input but not be called too large.",
+		Rule: "corpus = universe U in XY/XYZ/XYM/XYZM + collections (mixed layouts, empty members, nesting) + 14 large geometries whose coordinate arrays straddle 512/1024 floats and 4/8/64 KiB x {NDR,XDR} x {WKB default, WKB NaN mode, EWKB} x top-level SRID in {0,1,4326,2^31-1,2^31,2^32-1} + special-float sweep; bytes compared with an independent reference encoder, decode compared with the model (carve-outs computed); hex and SQL wrappers; Read over a fault-injecting reader on enc(g1)||enc(g2): all answer sequences with <=1 (quick) / <=2 (thorough) non-default answers from {all, 1 byte, all-but-one, data+EOF}, and ALL chunk compositions for encodings <= 22 bytes; Write over a fault-injecting writer: every Write call index x {fail, short write}. distinct_nontrivial = distinct (case) tuples with at least one coordinate Also: a point nested 10..1000 (thorough 4000) collections deep; every NaN pattern of a point (each ordinate from canonical/payload/negative NaN and an ordinary value) stand-alone, as multipoint member and inside nested collections; every query / in-place change / query history of length <=3 (thorough 4) on live geometries and collections (incl. a point pushed into a nested, possibly still empty, collection after the outer one was encoded): the bytes must be the reference encoding of the geometry as it is now; two-step histories in which the bytes returned by Marshal and by the SQL Value() methods are kept while shorter and longer geometries are encoded, then compared again. Round 7: the reader exploration also with the case geometry LAST in the stream, and data delivered together with io.EOF after the fully enumerated first geometry. Round 8: the reader schedules again behind a reader with a failing Seek method and behind bufio.Readers of 16 and 4096 bytes. Round 9: the writer exploration again with one-off faults (later Write calls succeed); one SQL wrapper scanned into twice (the rows loop). Round 10: every value of the last byte of an encoding (256 values in the lowest mantissa byte and in the sign/exponent byte of the last ordinate) through Unmarshal, hex and every SQL wrapper; polygons with 65536, 65537, 70001 rings and multi-geometries / collections with 65537 members. Round 11: after every failed write the geometry is encoded again and compared with its encoding before the write (a fresh geometry per execution). Round 12: nothing is refused under the package's default settings - a multi-line with 2^20+1 members round-tripped, and count prefixes of 2^16+1..2^28+1 members for every multi-part type may run out of input but not be called too large.",
 		Run:  c03Run,
 		Replay: func(c *engine.Ctx, kind string, raw json.RawMessage) {
 			if kind == "c03prefix" {
@@ -846,11 +846,11 @@ func c03Run(c *engine.Ctx) {
 			}
 		}
 	})
-	// "nested collections to any depth": a point inside 10 .. 1000 (thorough 5000) collections, one
+	// "nested collections to any depth": a point inside 10 .. 1000 (thorough 4000) collections, one
 	// per level (depths around 200 included - a customary parser limit), bytes and decode
 	depths := []int{10, 64, 100, 199, 200, 201, 255, 256, 257, 500, 1000}
 	if c.Thorough() {
-		depths = append(depths, 2000, 5000)
+		depths = append(depths, 2000, 4000) // (the model is cloned through JSON, whose nesting limit of 10000 is two levels per collection)
 	}
 	c.Parallel(len(depths), func(i int) {
 		for _, l := range []geom.Layout{geom.XY, geom.XYZM} {
